@@ -150,7 +150,8 @@ def raised_inside_implementation(e):
     impl = [i for i, ln in enumerate(frames) if "/ceos_alos2/" in ln and "/ceos_alos2/tests/" not in ln]
     if not impl:
         return False
-    return not any(VERIF in ln or "/harness/" in ln or "/checks/" in ln for ln in frames[impl[-1] + 1:])
+    # (the tracing filesystem below the implementation is the ENVIRONMENT answering it -- a refused write, an injected fault -- not harness logic)
+    return not any((VERIF in ln or "/harness/" in ln or "/checks/" in ln) and "/harness/tracefs.py" not in ln for ln in frames[impl[-1] + 1:])
 
 
 def jsonable(x):
